@@ -149,6 +149,16 @@ func (chain *Blockchain) Extends(block, target *hotstuff.Block) bool {
 	return ok && current.Hash() == target.Hash()
 }
 
+// MarkCommitted records the committed block as the block at its height. If an equivocating
+// leader produced several blocks for one view, the height index may point to a sibling that
+// was stored later; PruneToHeight follows the index to find the committed chain and would
+// then report blocks of the committed chain as forked.
+func (chain *Blockchain) MarkCommitted(block *hotstuff.Block) {
+	chain.mut.Lock()
+	defer chain.mut.Unlock()
+	chain.blockAtHeight[block.View()] = block
+}
+
 // PruneToHeight prunes the blockchain to the given height.
 func (chain *Blockchain) PruneToHeight(committedHeight, height hotstuff.View) (forkedBlocks []*hotstuff.Block) {
 	chain.mut.Lock()
